@@ -6,7 +6,8 @@
   suites (dm-dec, dm-hl, dm-la) and by Obligations/C02.lean (character tables, randomisation kernels).
 
   The look-ahead (`HighLevelEncoder_lookAheadTest`, float arithmetic) is an arbitrary oracle
-  `la : message → position → current mode → mode` in every theorem.
+  `la : message → position → current mode → mode` in the encoder theorems; `laExactR ρ` is its exact integer model
+  with the float rounding `ρ` explicit (every theorem about it holds for every `ρ`).
 -/
 import Gzx.Proofs.DMTotalAB
 import Gzx.Proofs.DMMidstream
@@ -253,24 +254,35 @@ theorem dm_encoder_invariant_tail (T : Tables) (la : LookAhead) (c c' : Ctx) (a 
 /-! ## round trip -/
 
 /-
-  Full statement (kept visible; NOT proved, and FALSE for an arbitrary oracle — see `dm_roundtrip_needs_x12_tail`):
+  Full statement (kept visible; NOT proved, and FALSE for an arbitrary oracle — see `dm_roundtrip_needs_x12_tail` —
+  and, once EDIFACT is admitted, FALSE for some symbol tables — see `dm_roundtrip_edifact_needs_symbol_gap`):
 
     theorem dm_roundtrip (syms) (la : LookAhead) (msg) (cfg) (cw) (hb : ∀ x ∈ msg, x < 256) :
         encodeHL syms la msg cfg = .ok cw → decodeText refTables cw = .ok msg
 
-  Proved part (`dm_roundtrip_five_modes_partial`): every encoding that uses ASCII, C40, Text, X12 and Base-256
-  encodation in any combination, i.e. every look-ahead oracle that never proposes EDIFACT from ASCII, under two
-  explicit conditions on the oracle at the very end of the message:
-    * `LaTailAscii`: with one character left it stays in ASCII (needed when a C40/Text/X12 segment was closed
-      without unlatch because exactly one codeword is free for that character);
-    * `LaX12Tail`: it neither keeps nor enters X12 for a last triplet followed by exactly one extended
-      character (otherwise `x12HandleEOD` omits the unlatch although that character needs two codewords).
-  Both hold for `HighLevelEncoder_lookAheadTest` on every input tried (they are what the `dm-la` suite and the
-  oracle on the real code exercise) but are not proved for the float look-ahead.
-  Missing: the EDIFACT encoder as a whole call.  Its groups with an explicit unlatch are read back only if at
-  least three codewords follow the last complete quadruple in the FINAL symbol, which depends on later symbol
-  re-selection (`ResetSymbolInfo`); that global argument is not formalised.  EDIFACT is covered by the codec
-  lemmas (`edifact_char_inv`, `edifact_pack_inv`), by exact-codeword correspondence and by the oracle.
+  Proved:
+    * `dm_roundtrip_five_modes_partial` / `…_on_partial`: every encoding that uses ASCII, C40, Text, X12 and Base-256
+      encodation in any combination, every symbol table, every hint configuration, for every look-ahead ORACLE with
+        `LaNoEdifactOn la msg`  along this message it never proposes EDIFACT from ASCII,
+        `LaTailAscii`           with one character left it stays in ASCII,
+        `LaX12Tail`             it neither keeps nor enters X12 for a last triplet followed by one extended character.
+    * `la_tail_ascii`, `la_x12_tail`: the last two are THEOREMS for the real look-ahead — exact arithmetic in units
+      of 1/12 under EVERY float rounding (`laExactR ρ`; the harness ties `HighLevelEncoder_lookAheadTest` to it
+      decision by decision) — hence `dm_roundtrip_real_lookahead_partial` (only `LaNoEdifactOn` left) and
+      `dm_roundtrip_no_edifact_window` (no oracle hypothesis at all for messages without four consecutive
+      EDIFACT-native characters).
+    * `dm_encoder_invariant_edifact`: the EDIFACT encoder as a whole call incl. every branch of `edifactHandleEOD`,
+      for every oracle and table: five end states.
+  Missing for dropping `LaNoEdifactOn`: the COMPOSITION of the EDIFACT end states with the rest of the run.
+    - `mid` (one-codeword unlatch 124 written in mid-stream) is decoded as unlatch only if at least two codewords
+      follow in the FINAL symbol.  That needs (a) the other four encoders' invariants re-proved from "decoder is in
+      ASCII state for continuations of length ≥ 2" instead of "for every continuation", and (b) an invariant about
+      symbol re-selection (`ResetSymbolInfo` in the C40 backtracking / EDIFACT rewind): the final symbol is never
+      smaller than what the EDIFACT call assumed, plus a table condition — consecutive admissible capacities differ
+      by at least 2 (`dm_roundtrip_edifact_needs_symbol_gap` shows it is necessary; ISO/IEC 16022 satisfies it).
+    - `tail` / `rewound` leave up to TWO characters to the ASCII encoder: `LaTailAscii` must cover two remaining
+      characters (`dm_roundtrip_edifact_needs_tail2`), and `rewound` needs ascending capacities.
+  EDIFACT is covered end to end by exact-codeword correspondence and by the oracle on the real code.
 -/
 
 /-- `dm_roundtrip`, five encoders (ASCII, C40, Text, X12, Base 256): for every symbol table, every hint
@@ -503,10 +515,12 @@ by
 /-! ## termination -/
 
 /-
-  Full statement (FALSE for an arbitrary oracle, see `dm_terminates_fails_for_some_oracle`; not proved for the
-  float look-ahead `laFloat`; for the real code termination is watchdog-backed):
+  Full statement (FALSE for an arbitrary oracle, see `dm_terminates_fails_for_some_oracle`; NOT proved for the real
+  look-ahead; for the real code termination is watchdog-backed, plus an exhaustive sweep of all strings of length
+  ≤ 5 / ≤ 6 over one representative per character class — harness `dm-term`, 433 160 strings in the quick tier, no
+  hang):
 
-    theorem dm_terminates (syms) (msg) (cfg) : encodeHL syms laFloat msg cfg ≠ .error .fuel
+    theorem dm_terminates (syms) (ρ) (msg) (cfg) : encodeHL syms (laExactR ρ) msg cfg ≠ .error .fuel
 
   Progress per encoder call (all proved above / in Proofs):
     ASCII data step            position strictly increases            (`dm_encoder_invariant_ascii`)
@@ -516,8 +530,21 @@ by
                                characters could be taken              (`dm_encoder_invariant_x12`)
     C40 / Text                 position never decreases; +0 if the end-of-message backtracking removes every
                                character it had taken                 (`dm_encoder_invariant_c40`)
-  Hence a latch followed by a C40/Text/X12 call may consume nothing, and an oracle that asks for the same
-  latch again at the same position loops for ever.
+    EDIFACT                    position never decreases; +4 per quadruple, +0 if at most two characters were
+                               buffered at the end of the message and rewound (`dm_encoder_invariant_edifact`)
+  Hence the ONLY loop that has to be excluded is: ASCII latch to m ∈ {C40, Text, X12, EDIFACT} at position p, the
+  call of encoder m consumes nothing, back in ASCII at p the look-ahead answers m again.  What is missing, exactly:
+    X12      consumes nothing iff fewer than three characters remain; `laExactR` answers X12 from ASCII only if
+             the next three characters exist and are X12-native (guard + `asciiTailOK`-style check) — not assembled.
+    EDIFACT  consumes nothing iff at most two characters remain (rewound); with at most three EDIFACT-native
+             characters left `laExactR` answers ASCII (`ediTail_checked`) — not assembled.
+    C40/Text consumes nothing iff EVERY character up to the end of the message is backtracked, i.e. the value
+             counts are (1 or 4), 3, 3, …, 3 [, 1 or 4]; the characters with three values are extended ones, each costs
+             the ASCII count 2 and the C40/Text count 8/3, so `laExactR` never prefers C40/Text there (with four or
+             more such characters step R answers Base 256, with fewer step K answers ASCII or Base 256).  The
+             characterisation of "consumes nothing" needs a refinement of `c40_step_post` (the backtracking loop's
+             exit condition on the value-count residues) that is not proved.
+  No message on which the loop occurs is known: none in the exhaustive sweep, none in any generated case.
 -/
 
 /-- an oracle that always answers "C40" from ASCII: for the message "é" the C40 encoder takes 'é' (four
